@@ -342,7 +342,7 @@ func fieldKey(structType types.Type, idx int) (string, types.Type) {
 	}
 	name := "?"
 	if n, ok := t.(*types.Named); ok {
-		name = n.Obj().Name()
+		name = typeCanonName(n.Obj())
 		if n.Obj().Pkg() != nil {
 			name = n.Obj().Pkg().Name() + "." + name
 		}
@@ -500,7 +500,7 @@ func (ev *Evaluator) LoadField(st *State, ptr *T, fields ...string) *T {
 			if s, ok := stt.Underlying().(*types.Struct); ok {
 				want := f
 				if n, isN := stt.(*types.Named); isN && n.Obj().Pkg() != nil {
-					if a, okA := toActual[n.Obj().Pkg().Name()+"."+n.Obj().Name()+"."+f]; okA {
+					if a, okA := toActual[n.Obj().Pkg().Name()+"."+typeCanonName(n.Obj())+"."+f]; okA {
 						want = a
 					}
 				}
@@ -630,8 +630,49 @@ func (ev *Evaluator) CallTerm(st0 *State, fnTerm *T, args []*T) []*Path {
 	var free []*T
 	if fnTerm.Op == "closure" {
 		free = fnTerm.Args
+		// a bound method value x.m: run the method itself on the bound receiver
+		if m := ev.P.TargetOf(fnTerm.Fn); m != origin(fnTerm.Fn) && len(free) == 1 && len(m.Blocks) > 0 {
+			return ev.RunFrom(st0, m, append([]*T{free[0]}, args...), nil)
+		}
 	}
 	return ev.RunFrom(st0, origin(fnTerm.Fn), args, free)
+}
+
+// RunEvent evaluates the function started or registered by a call-like event (go f(...), go x.m(...), a closure,
+// a bound method value) from state st, with the event's own arguments unless args is given.
+func (ev *Evaluator) RunEvent(st *State, e *Event, args []*T) []*Path {
+	if args == nil {
+		args = e.Args
+	}
+	if e.FnTerm != nil && e.FnTerm.Fn != nil {
+		return ev.CallTerm(st, e.FnTerm, args)
+	}
+	if e.Fn != nil {
+		fn := ev.P.TargetOf(e.Fn)
+		if len(fn.Blocks) == 0 {
+			ev.Err = fmt.Errorf("RunEvent: %s has no body", fn)
+			return nil
+		}
+		var all []*T
+		if e.Recv != nil && fn.Signature.Recv() != nil {
+			all = append(all, e.Recv)
+		}
+		all = append(all, args...)
+		return ev.RunFrom(st, fn, all, nil)
+	}
+	ev.Err = fmt.Errorf("RunEvent: callee of %s is not a known function", e.Callee)
+	return nil
+}
+
+// EventFn: the function a call-like event starts (closure body, bound method, static callee), or nil.
+func (ev *Evaluator) EventFn(e *Event) *ssa.Function {
+	if e.FnTerm != nil && e.FnTerm.Fn != nil {
+		return ev.P.TargetOf(e.FnTerm.Fn)
+	}
+	if e.Fn != nil {
+		return ev.P.TargetOf(e.Fn)
+	}
+	return nil
 }
 
 func (ev *Evaluator) pushFrame(st *State, fn *ssa.Function, args []*T, free []*T, retTo ssa.Value, noAdv bool) {
@@ -781,6 +822,33 @@ func (ev *Evaluator) runState(st *State) (*Path, []*State) {
 			st.frames = st.frames[:len(st.frames)-1]
 			caller := st.top()
 			if fr.retTo != nil {
+				// a generic helper returning the zero value of its type parameter: the caller knows the concrete type
+				if len(rets) == 1 && (rets[0].Op == "nil" || rets[0].Op == "zero") {
+					if _, isTP := in.Results[0].Type().(*types.TypeParam); isTP {
+						if _, isBasic := fr.retTo.Type().Underlying().(*types.Basic); isBasic {
+							rets[0] = ev.TS.zeroOf(fr.retTo.Type())
+						}
+					}
+				}
+				// values typed by a type parameter inside the helper get the caller's concrete static type
+				for i, r := range rets {
+					if r == nil || r.Typ == nil {
+						continue
+					}
+					if _, isTP := r.Typ.(*types.TypeParam); !isTP {
+						continue
+					}
+					var static types.Type = fr.retTo.Type()
+					if tup, isTup := static.(*types.Tuple); isTup {
+						if i >= tup.Len() {
+							continue
+						}
+						static = tup.At(i).Type()
+					}
+					if _, stillTP := static.(*types.TypeParam); !stillTP {
+						r.Typ = static
+					}
+				}
 				caller.env[fr.retTo] = ev.tuple(rets)
 			}
 			if !fr.noAdv {
@@ -916,7 +984,13 @@ func (ev *Evaluator) tuple(ts []*T) *T {
 // jump moves fr to succ evaluating phis; false if the loop bound is exceeded.
 func (ev *Evaluator) jump(st *State, fr *Frame, succ *ssa.BasicBlock) bool {
 	fr.visits[succ]++
-	if fr.visits[succ] > ev.Cfg.MaxVisits {
+	bound := ev.Cfg.MaxVisits
+	if fr.depth > 0 && bound < 5 {
+		// loops of inlined helpers (typically over a short fixed list of candidates) are unrolled further: their
+		// trip count is usually decided by the arguments, and a cut there would leave the caller's rule undecided
+		bound = 5
+	}
+	if fr.visits[succ] > bound {
 		return false
 	}
 	prev := fr.block
@@ -1012,6 +1086,9 @@ func (ev *Evaluator) evalValue(st *State, fr *Frame, v ssa.Value) (*T, []*State)
 	case *ssa.IndexAddr:
 		base := ev.val(st, fr, x.X)
 		idx := ev.val(st, fr, x.Index)
+		if arr, _, ok := wholeArray(base); ok {
+			base = arr // arr[:][i] is arr[i]
+		}
 		var et types.Type
 		switch u := x.X.Type().Underlying().(type) {
 		case *types.Slice:
@@ -1103,6 +1180,9 @@ func (ev *Evaluator) evalValue(st *State, fr *Frame, v ssa.Value) (*T, []*State)
 		a, b := ev.val(st, fr, x.X), ev.val(st, fr, x.Y)
 		switch x.Op {
 		case token.EQL, token.NEQ, token.LSS, token.LEQ, token.GTR, token.GEQ:
+			// inside a generic helper the zero value of a type parameter is compared with a value whose concrete
+			// type is known from the inlining caller: use that type's zero
+			a, b = concreteZero(ts, a, x.X.Type(), b), concreteZero(ts, b, x.Y.Type(), a)
 			return ts.Cmp(x.Op.String(), a, b), nil
 		case token.ADD:
 			if isIntType(x.Type()) {
@@ -1134,6 +1214,48 @@ func (ev *Evaluator) evalValue(st *State, fr *Frame, v ssa.Value) (*T, []*State)
 	return nil, nil
 }
 
+func concreteZero(ts *Terms, z *T, static types.Type, other *T) *T {
+	if (z.Op != "nil" && z.Op != "zero") || static == nil || other == nil || other.Typ == nil {
+		return z
+	}
+	if _, isTP := static.(*types.TypeParam); !isTP {
+		return z
+	}
+	if _, isBasic := other.Typ.Underlying().(*types.Basic); !isBasic {
+		return z
+	}
+	return ts.zeroOf(other.Typ)
+}
+
+// wholeArray: t is arr[:] (or arr[0:]) of an array addressed by pointer; returns the array pointer term and length.
+func wholeArray(t *T) (*T, int64, bool) {
+	if t.Op != "app" || t.Aux != "slice" || len(t.Args) != 4 || t.Args[0].Typ == nil {
+		return nil, 0, false
+	}
+	pt, ok := t.Args[0].Typ.Underlying().(*types.Pointer)
+	if !ok {
+		return nil, 0, false
+	}
+	arr, ok := pt.Elem().Underlying().(*types.Array)
+	if !ok {
+		return nil, 0, false
+	}
+	if lo := t.Args[1]; lo.Op != "none" {
+		if k, isK := lo.IsConstInt(); !isK || k != 0 {
+			return nil, 0, false
+		}
+	}
+	n := arr.Len()
+	if hi := t.Args[2]; hi.Op != "none" {
+		k, isK := hi.IsConstInt()
+		if !isK {
+			return nil, 0, false
+		}
+		n = k
+	}
+	return t.Args[0], n, true
+}
+
 func isStringish(t types.Type) bool {
 	b, ok := t.Underlying().(*types.Basic)
 	return ok && b.Info()&types.IsString != 0
@@ -1147,8 +1269,8 @@ func (ev *Evaluator) callEvent(st *State, fr *Frame, c *ssa.CallCommon, instr ss
 	}
 	if c.IsInvoke() {
 		e.Recv = ev.val(st, fr, c.Value)
-		e.Method = c.Method.Name()
-		e.Callee = "invoke:" + c.Method.Name()
+		e.Method = canonMethodName(c.Method)
+		e.Callee = "invoke:" + e.Method
 		return e
 	}
 	switch v := c.Value.(type) {
@@ -1193,7 +1315,7 @@ func (ev *Evaluator) doCall(st *State, fr *Frame, c *ssa.CallCommon, instr ssa.I
 		// arguments were evaluated at defer time
 		e = &Event{Kind: EvCall, Instr: instr, Args: d.args, Recv: d.recv, FnTerm: d.fn}
 		if c.IsInvoke() {
-			e.Method = c.Method.Name()
+			e.Method = canonMethodName(c.Method)
 			e.Callee = "invoke:" + e.Method
 			e.FnTerm = nil
 		} else if f, ok := c.Value.(*ssa.Function); ok {
@@ -1229,6 +1351,8 @@ func (ev *Evaluator) doCall(st *State, fr *Frame, c *ssa.CallCommon, instr ssa.I
 			a := e.Args[0]
 			if s, ok := a.IsConstString(); ok && name == "len" {
 				res = ts.LinConst(int64(len(s)), types.Typ[types.Int])
+			} else if _, n, isArr := wholeArray(a); isArr {
+				res = ts.LinConst(n, types.Typ[types.Int])
 			} else if a.Op == "makeslice" && name == "len" {
 				res = a.Args[0]
 			} else if a.IsNilConst() {
@@ -1271,7 +1395,7 @@ func (ev *Evaluator) doCall(st *State, fr *Frame, c *ssa.CallCommon, instr ssa.I
 	// resolve callee
 	callee := e.Fn
 	if c.IsInvoke() && ev.Cfg.ResolveInvoke != nil {
-		if f, nr := ev.Cfg.ResolveInvoke(ev, st, e.Recv, e.Method); f != nil {
+		if f, nr := ev.Cfg.ResolveInvoke(ev, st, e.Recv, c.Method.Name()); f != nil {
 			callee = origin(f)
 			e.Fn = callee
 			e.Callee = qualName(callee)
